@@ -30,7 +30,7 @@ SPEC = dict(
                  "plus the whole quick space",
     ),
     assumptions=[
-        "head menu of 9 templates (own / several / zero / pooled parameters, one or two features, a leaf read around the features)",
+        "head menu of 10 templates (own / several / zero / pooled parameters, one or two features, a leaf read around the features, a loss that depends on another task's parameter without listing it)",
         "trunk ops limited to the grammar of mc/programs.py",
         "features are not computed from one another, and no feature is produced by the same autograd node as an ancestor of another feature "
         "(e.g. [x.unbind()[1], sin(x.unbind()[0])]): such nested features are excluded structurally - the statement does not define them. "
@@ -53,10 +53,12 @@ def gen_cases(tier, seed):
                 continue  # nested features (one feature computed from another): outside the statement
             for nt in (1, 2, 3):
                 if mode == "all" and nt <= 2:
-                    assigns = M.head_assignments(nt, nfeat)
+                    assigns = M.head_assignments(nt, nfeat, menu=M.TEMPLATES_EXT)
                 else:
-                    k = len(M.TEMPLATES)
-                    assigns = [[{"tpl": M.TEMPLATES[(a + i) % k], "f": (i + a) % nfeat} for i in range(nt)] for a in range(k)]
+                    k = len(M.TEMPLATES_EXT)
+                    assigns = [[{"tpl": M.TEMPLATES_EXT[(a + i) % k], "f": (i + a) % nfeat} for i in range(nt)] for a in range(k)]
+                    if nt == 3:  # H10 next to an H6 head (which lists U) and one ordinary head
+                        assigns.append([{"tpl": "H6", "f": 0}, {"tpl": "H10", "f": (1) % nfeat}, {"tpl": "H1", "f": 0}])
                 for heads in assigns:
                     cases.append(dict(desc=dict(trunk=prog, feats=feats, heads=heads), seed=seed))
 
@@ -80,6 +82,8 @@ def _configs(nt, around):
         cfgs.append((ident, "default", "default", "const", None, "float64"))
         cfgs.append((ident[::-1], "default", "own", "upgrad-pref", 1, "float64"))
         cfgs.append((ident, "all", "default", "mean", None, "float64"))
+    else:  # a loss reaches a shared parameter around the features: explicit shared + defaulted task parameters overlap -> rejected
+        cfgs.append((ident, "all", "default", "const", None, "float64", "list", "once", "reject"))
     cfgs.append((ident, "deps", "extra", "const", None, "float64"))
     cfgs.append((ident, "none", "own", "const", None, "float64"))  # explicit empty shared_params: heads still get their gradients
     cfgs.append((ident, "all", "own", "upgrad-pref", None, "float64"))
@@ -131,7 +135,8 @@ def run_case(case):
     for ci, cfg_ in enumerate(_configs(nt, around)):
         perm, smode, tmode, aggname, chunk, dtype = cfg_[:6]
         cont = cfg_[6] if len(cfg_) > 6 else "list"
-        twice = len(cfg_) > 7
+        twice = len(cfg_) > 7 and cfg_[7] == "twice"
+        reject = len(cfg_) > 8
         B = M.build_torch(desc, seed, dtype)
         vals = B["vals"]
         if not fwd_ok:
@@ -203,11 +208,22 @@ def run_case(case):
                 mtl_backward(losses=losses, features=feats_arg, aggregator=agg, tasks_params=tparams, shared_params=shared,
                              parallel_chunk_size=chunk)
         except Exception as e:
+            execs += 1
+            if reject and isinstance(e, ValueError):
+                changed = [key for key, p_ in allp if (p_.grad is None) != (key not in pre) or (key in pre and not torch.equal(p_.grad, pre[key]))]
+                if changed:
+                    viol.append(dict(sig="rejected-call-modified-grad", msg=f"{where} | {changed}"[:700]))
+                outcomes.add("rejected")
+                continue
             viol.append(dict(sig=f"exception:{type(e).__name__}", cls=f"exception:{type(e).__name__}:{smode}:{tmode}",
                              msg=f"{where} | {e!r}"[:700]))
-            execs += 1
             continue
         execs += 1
+        if reject:
+            viol.append(dict(sig="overlap-not-rejected", cls="overlap-not-rejected",
+                             msg=f"{where} | a loss reaches a listed shared parameter without passing through the features; with defaulted "
+                                 f"tasks_params that parameter is in both sets and the call must be rejected, it returned normally"[:800]))
+            continue
         tol = 1e-11 if dtype == "float64" else 5e-5
         delta = {}
         for key, p_ in allp:
@@ -217,7 +233,11 @@ def run_case(case):
             else:
                 delta[key] = (g.detach().double().numpy() - (pre[key].double().numpy() if key in pre else 0.0)) / (2.0 if twice else 1.0)
         # ---- task parameters
-        usesU = [i for i in range(nt) if desc["heads"][i]["tpl"] == "H6"]
+        # tasks that LIST the pool parameter U: the H6 heads; an H10 head depends on U without listing it (unless its list is defaulted)
+        if tmode == "default":
+            usesU = [i for i in range(nt) if desc["heads"][i]["tpl"] in ("H6", "H10")]
+        else:
+            usesU = [i for i in range(nt) if any(p_ is B["U"] for p_ in tp[i])]
         bad = None
         for i in range(nt):
             for n_, p_ in zip(B["tnames"][i], B["tparams"][i]):
@@ -237,7 +257,7 @@ def run_case(case):
             if bad:
                 break
         if not bad and usesU:
-            exp = sum(float(heads_ref[i][2]["U"]) for i in usesU)
+            exp = sum(float(heads_ref[i][2].get("U", 0.0)) for i in usesU)
             got = delta[("U",)]
             if got is None:
                 bad = "pooled param U: .grad not created"
